@@ -518,6 +518,57 @@ func Run(r *mc.Run) {
 	e.scenario("decoy-members", map[string]interface{}{"keyrings": fmt.Sprintf("[K1] and %v", otherRings), "bases": names(bases), "decoys": decoyNames(e, bases[0], r.Quick()), "positions": "every member position 0..4",
 		"orders": c14.MapOrderNote, "repetitions_per_variant": c14.MapOrderReps}, ins, 1)
 
+	// ---- scenario 3a: decoy NAME alphabet - an extra member whose name is a near-variant of control.tar* / data.tar*
+	// (letter case, "./" prefix, trailing slash, trailing NUL, leading blank), holding the attacker's tar, before /
+	// between / after the real members, under the explored map orders. (The exact-prefix second members are in
+	// decoy-members above.) On a loader that matches names exactly these are just extra members.
+	ins = nil
+	nameDecoys := map[string][]string{}
+	for _, b := range bases[:2] {
+		sm, si := e.sigMember("origin", "K1", b.signed())
+		full := append(append([]gen.ArMember(nil), b.mem...), sm)
+		evil := gen.DebModel{Fields: []gen.DebField{{Key: "Package", Value: "evil"}, {Key: "Version", Value: "9"}, {Key: "Architecture", Value: "all"}}}
+		evilDataTar := gen.BuildTar([]gen.TarEntry{{Name: "./etc/cron.d/evil", Body: []byte("* * * * * root true\n")}})
+		variants := func(stem string) []string { // stem = "control" | "data"
+			up := strings.ToUpper(stem[:1]) + stem[1:]
+			inv := strings.ToLower(stem[:1]) + strings.ToUpper(stem[1:])
+			return []string{up + ".tar", strings.ToUpper(stem) + ".TAR", strings.ToUpper(stem) + ".TAR.GZ", up + ".tar.gz", inv + ".tar", stem + ".TAR",
+				"./" + stem + ".tar", stem + ".tar/", stem + ".tar\x00", " " + stem + ".tar", stem + ".Tar.gz"}
+		}
+		for _, stem := range []string{"control", "data"} {
+			raw := evil.ControlTar()
+			if stem == "data" {
+				raw = evilDataTar
+			}
+			for _, n := range append(variants(stem), auditMemberNames(2)...) {
+				if len(n) > 16 {
+					continue
+				}
+				comp := "none"
+				if strings.HasSuffix(strings.ToLower(strings.TrimRight(n, "/\x00")), ".gz") {
+					comp = "gz"
+				}
+				z, err := e.c.Compress(comp, raw)
+				if err != nil {
+					r.HarnessError("decoy name content: %v", err)
+					continue
+				}
+				if !has(nameDecoys[stem], n) {
+					nameDecoys[stem] = append(nameDecoys[stem], n)
+				}
+				for _, pos := range []int{0, 2, len(full)} {
+					ins = append(ins, e.mk(b, "decoy", fmt.Sprintf("decoy %q (attacker's %s tar, %s) at position %d", n, stem, comp, pos),
+						fmt.Sprintf("inserted member %q holding the attacker's %s tar at position %d", n, stem, pos),
+						insertAt(full, pos, gen.ArMember{Name: n, Data: z}), []SigInfo{si}, "origin", []string{"K1"}, true))
+				}
+			}
+		}
+	}
+	c14.MapOrderBound = r.Pick(1, 2)
+	e.scenario("decoy-names", map[string]interface{}{"bases": names(bases[:2]), "names": nameDecoys, "positions": "before (0), between (2), after (end)",
+		"content": "the attacker's control / data tar, stored or gzip according to the (lower-cased) suffix", "map_order_deviation_bound": c14.MapOrderBound, "orders": c14.MapOrderNote}, ins, 1)
+	c14.MapOrderBound = 2
+
 	// ---- scenario 3b: SWAPS - a member's content is replaced by the attacker's and the originally signed bytes stay in
 	// the archive under another name (so a verifier that selects members differently from the loader could still find
 	// them); for each of the four members, each name of a name alphabet, every position, under the explored map orders.
